@@ -46,7 +46,8 @@ Record irr_inert_eq (i i' : DIrr R) : Prop := {
   ie_NetIrrSMT : i_method i = 4%Z -> i_NetIrrSMT i = i_NetIrrSMT i';
   ie_WetSurf : surface (i_method i) -> i_WetSurf i = i_WetSurf i' }.
 
-(* field management: tag and switches are the same; the parameters of a feature only when its switch is on *)
+(* field management: tag and switches are the same; the parameters of a feature only when its switch is on; the initial
+   water between the bunds only when the bunds are higher than 1 mm (Day.reset, InitState.init_surface) *)
 Record field_inert_eq (f f' : DField R) : Prop := {
   fe_id : f_id f = f_id f';
   fe_sr_inhb : f_sr_inhb f = f_sr_inhb f';
@@ -54,7 +55,7 @@ Record field_inert_eq (f f' : DField R) : Prop := {
   fe_cn_adj : f_cn_adj f = f_cn_adj f';
   fe_mulches : f_mulches f = f_mulches f';
   fe_z_bund : f_bunds f = true -> f_z_bund f = f_z_bund f';
-  fe_bund_water : f_bunds f = true -> f_bund_water f = f_bund_water f';
+  fe_bund_water : f_bunds f = true -> 1 / 1000 < f_z_bund f -> f_bund_water f = f_bund_water f';
   fe_cn_adj_pct : f_cn_adj f = true -> f_cn_adj_pct f = f_cn_adj_pct f';
   fe_f_mulch : f_mulches f = true -> f_f_mulch f = f_f_mulch f';
   fe_mulch_pct : f_mulches f = true -> f_mulch_pct f = f_mulch_pct f' }.
@@ -76,7 +77,10 @@ Record par_inert_eq (par par' : DPar R) : Prop := {
 Lemma irr_inert_eq_sym i i' : irr_inert_eq i i' -> irr_inert_eq i' i.
 Proof. intros [H0 Hm H1 H2 H3 H4 H5 H6 H7 H8 H9]. constructor; rewrite <- ?Hm; intros; symmetry; auto. Qed.
 Lemma field_inert_eq_sym f f' : field_inert_eq f f' -> field_inert_eq f' f.
-Proof. intros [H0 H1 Hb Hc Hm H5 H6 H7 H8 H9]. constructor; rewrite <- ?Hb, <- ?Hc, <- ?Hm; intros; symmetry; auto. Qed.
+Proof.
+  intros [H0 H1 Hb Hc Hm H5 H6 H7 H8 H9]. constructor; rewrite <- ?Hb, <- ?Hc, <- ?Hm; intros; symmetry; auto.
+  apply H6; [assumption|]. rewrite H5 by assumption. assumption.
+Qed.
 Lemma par_inert_eq_sym par par' : par_inert_eq par par' -> par_inert_eq par' par.
 Proof.
   intros [H1 H2 H3 H4 H5 H6 H7 H8 H9 H10 H11 H12].
@@ -302,15 +306,19 @@ Lemma summary_inert par par' season g s : (i_method (sel_irr par season) =? 4)%Z
   summary_of par' season g s = summary_of par season g s.
 Proof. intros H. unfold summary_of. rewrite H. reflexivity. Qed.
 
+Lemma nltb_true_lt (a b : R) : nltb num_ops a b = true -> a < b.
+Proof. rnum. destruct (Rltb_spec a b); [auto|discriminate]. Qed.
+
 (* the season reset reads the crop of the new season, sim_off_season, the number of compartments, and the bund
    parameters of the field management under its switch *)
 Lemma reset_inert par par' k ws s : par_inert_eq par par' -> reset par' k ws s = reset par k ws s.
 Proof.
   intros HE. pose proof (pe_field _ _ HE) as Hf.
   unfold reset. cbv zeta. rewrite <- (pe_crop _ _ HE), <- (pe_soil _ _ HE), <- (pe_sim_off _ _ HE), <- (fe_bunds _ _ Hf).
-  destruct (f_bunds (p_field par)) eqn:Eb.
-  - rewrite <- (fe_z_bund _ _ Hf Eb), <- (fe_bund_water _ _ Hf Eb). reflexivity.
-  - cbn [andb]. reflexivity.
+  destruct (f_bunds (p_field par)) eqn:Eb; [|cbn [andb]; reflexivity].
+  rewrite <- (fe_z_bund _ _ Hf Eb). cbn [andb].
+  destruct (nltb num_ops (1#/1000)%num (f_z_bund (p_field par))) eqn:Ez; [|reflexivity].
+  rewrite <- (fe_bund_water _ _ Hf Eb (nltb_true_lt _ _ Ez)). reflexivity.
 Qed.
 
 Section RunInert.
@@ -337,3 +345,52 @@ Section RunInert.
     - intros. apply reset_inert. exact HE.
   Qed.
 End RunInert.
+
+(* ================================================================================================================ *)
+(*  5. the relation is not the identity: two different records it relates                                             *)
+(* ================================================================================================================ *)
+Module ExInert.
+  Import DayP.Ex.
+  (* rainfed, no bunds, no curve-number adjustment, no mulches: every parameter of those features at 0 ... *)
+  Definition irrA : DIrr R :=
+    {| i_id := 0; i_method := 0; i_SMT := [0; 0; 0; 0]; i_AppEff := 100; i_MaxIrr := 25; i_IrrInterval := 3; i_Schedule := [];
+       i_depth := 0; i_MaxIrrSeason := 10000; i_NetIrrSMT := 80; i_WetSurf := 100 |}.
+  Definition fieldA : DField R :=
+    {| f_id := 0; f_sr_inhb := false; f_bunds := false; f_z_bund := 0; f_cn_adj := false; f_cn_adj_pct := 0; f_mulches := false;
+       f_f_mulch := 0; f_mulch_pct := 0; f_bund_water := 0 |}.
+  Definition parA : DPar R :=
+    {| p_soil := soil0; p_irr := irrA; p_fallow_irr := irr0; p_field := fieldA; p_fallow_field := field0; p_crop := fun _ => crop0;
+       p_fallow_crop := crop0; p_water_table := 0; p_co2c := fun _ => 400; p_co2r := 36941 / 100; p_evap_steps := 20; p_sim_off := false |}.
+  (* ... and the same switches with every one of those parameters set to something else; the fallow irrigation management
+     (method 4) with everything but its net-irrigation threshold changed *)
+  Definition irrB : DIrr R :=
+    {| i_id := 0; i_method := 0; i_SMT := [1]; i_AppEff := 3; i_MaxIrr := 7; i_IrrInterval := 0; i_Schedule := [5];
+       i_depth := 9; i_MaxIrrSeason := 1; i_NetIrrSMT := 2; i_WetSurf := 11 |}.
+  Definition irr4B : DIrr R :=
+    {| i_id := 0; i_method := 4; i_SMT := []; i_AppEff := 3; i_MaxIrr := 7; i_IrrInterval := 0; i_Schedule := [5];
+       i_depth := 9; i_MaxIrrSeason := 1; i_NetIrrSMT := 80; i_WetSurf := 11 |}.
+  Definition fieldB : DField R :=
+    {| f_id := 0; f_sr_inhb := false; f_bunds := false; f_z_bund := 3 / 10; f_cn_adj := false; f_cn_adj_pct := 30; f_mulches := false;
+       f_f_mulch := 1 / 2; f_mulch_pct := 80; f_bund_water := 5 |}.
+  Definition parB : DPar R :=
+    {| p_soil := soil0; p_irr := irrB; p_fallow_irr := irr4B; p_field := fieldB; p_fallow_field := field0; p_crop := fun _ => crop0;
+       p_fallow_crop := crop0; p_water_table := 0; p_co2c := fun _ => 400; p_co2r := 36941 / 100; p_evap_steps := 20; p_sim_off := false |}.
+
+  Example inert_pair : par_inert_eq parA parB.
+  Proof.
+    constructor; try reflexivity.
+    - constructor; cbn; try reflexivity; unfold surface; intros H; repeat (destruct H as [H|H]; try discriminate); discriminate.
+    - constructor; cbn; try reflexivity; unfold surface; intros H; repeat (destruct H as [H|H]; try discriminate); discriminate.
+    - constructor; cbn; try reflexivity; intros H; discriminate.
+    - apply field_inert_eq_refl.
+  Qed.
+  Example inert_pair_differs : parA <> parB.
+  Proof. intros H. apply (f_equal (fun p => f_z_bund (p_field p))) in H. cbn in H. lra. Qed.
+  (* so the whole runs of the two configurations coincide, from any model state, for any clock and weather *)
+  Example inert_pair_run crops c ws fuel m0 : run_till_c parA crops c ws fuel m0 = run_till_c parB crops c ws fuel m0.
+  Proof. apply run_inert_concrete. exact inert_pair. Qed.
+End ExInert.
+
+Print Assumptions day_inert_concrete.
+Print Assumptions run_inert_concrete.
+Print Assumptions run_steps_inert_concrete.
